@@ -264,14 +264,10 @@ impl<'a> TimeZoneRef<'a> {
                     }
                     Ordering::Equal => {
                         // should this ever happen? presumably we have to handle it anyway.
+                        // The offset does not change (only the name or DST flag may), so no
+                        // local time is skipped or repeated by this transition.
                         if local_leap_time < transition_start {
                             return Ok(crate::MappedLocalTime::Single(prev));
-                        } else if local_leap_time == transition_end {
-                            if prev.ut_offset < after_ltt.ut_offset {
-                                return Ok(crate::MappedLocalTime::Ambiguous(prev, after_ltt));
-                            } else {
-                                return Ok(crate::MappedLocalTime::Ambiguous(after_ltt, prev));
-                            }
                         }
                     }
                     Ordering::Less => {
